@@ -1131,37 +1131,48 @@ void MatrixInversion(matrix *m, matrix *m_inv)
  */
 void MatrixPseudoinversion(matrix *m, matrix *m_inv)
 {
+  /* A+ = V S+ U^T with the economy size factors of SVDlapack:
+   * U is m x k, S is k x k, V_T is k x n, k = min(m, n) */
+  size_t i;
+  size_t j;
+  size_t k;
+  double tol;
   matrix *U;
   matrix *S;
   matrix *V_T;
+  matrix *VSinv;
+  matrix *U_T;
   initMatrix(&U);
   initMatrix(&S);
   initMatrix(&V_T);
-  SVD(m, U, S, V_T);
+  SVDlapack(m, U, S, V_T);
+  k = S->row;
 
-  /*
-  puts("U");
-  PrintMatrix(U);
-  puts("S");
-  PrintMatrix(S);
-  puts("VT");
-  PrintMatrix(V_T);
-  */
+  /* singular values below the rounding level of the largest one are treated as zero */
+  tol = 0.f;
+  if(k > 0)
+    tol = S->data[0][0] * 2.220446049250313e-16 * (double)((m->row > m->col) ? m->row : m->col);
 
-  matrix *Sinv;
-  NewMatrix(&Sinv, S->col, S->row);
-  MatrixInversion(S, Sinv);
-  DelMatrix(&S);
+  NewMatrix(&VSinv, m->col, k);
+  for(i = 0; i < m->col; i++){
+    for(j = 0; j < k; j++){
+      if(S->data[j][j] > tol)
+        VSinv->data[i][j] = V_T->data[j][i]/S->data[j][j];
+      else
+        VSinv->data[i][j] = 0.f;
+    }
+  }
 
-  matrix *USinv;
-  NewMatrix(&USinv, U->row, Sinv->col);
-  MatrixDotProduct(U, Sinv, USinv);
-  DelMatrix(&U);
-  DelMatrix(&Sinv);
-  ResizeMatrix(m_inv, m->row, m->col);
-  MatrixDotProduct(USinv, V_T, m_inv);
+  NewMatrix(&U_T, k, m->row);
+  MatrixTranspose(U, U_T);
+  ResizeMatrix(m_inv, m->col, m->row);
+  MatrixDotProduct(VSinv, U_T, m_inv);
+
+  DelMatrix(&U_T);
+  DelMatrix(&VSinv);
   DelMatrix(&V_T);
-  DelMatrix(&USinv);
+  DelMatrix(&S);
+  DelMatrix(&U);
 }
 
 
@@ -2053,49 +2064,10 @@ int cmpfunc(const void *a, const void *b )
 
 void SVD(matrix* m, matrix *U, matrix *S, matrix *VT)
 {
-  size_t i;
-  matrix *w1;
-  matrix *w2;
-  matrix *m_t;
-  matrix *v;
-  dvector *eval1;
-  dvector *eval2;
-  NewMatrix(&w1, m->row, m->row); // A A^T
-  NewMatrix(&w2, m->col, m->col); // A^T A
-  NewMatrix(&m_t, m->col, m->row);
-
-  MatrixTranspose(m, m_t);
-
-  MatrixDotProduct(m, m_t, w1);
-  MatrixDotProduct(m_t, m, w2);
-
-  initDVector(&eval1);
-  initDVector(&eval2);
-
-  initMatrix(&v);
-  EVectEval(w1, eval1, v);
-  EVectEval(w2, eval2, U);
-
-  ResizeMatrix(VT, v->col, v->row);
-  MatrixTranspose(v, VT);
-  ResizeMatrix(S, m->row, m->col);
-
-  /*NewMatrix(&to_sort, (*S)->row, 2);*/
-
-  for(i = 0; i < S->col; i++){
-    if(FLOAT_EQ(eval1->data[i], 0.f, 1e-6) || eval1->data[i] < 0)
-      S->data[i][i] = 0.f;
-    else{
-      S->data[i][i] = sqrt(eval1->data[i]);
-    }
-  }
-
-  DelMatrix(&v);
-  DelMatrix(&m_t);
-  DelDVector(&eval1);
-  DelDVector(&eval2);
-  DelMatrix(&w2);
-  DelMatrix(&w1);
+  /* The former construction took U from the eigenvectors of A^T A and V from those of A A^T,
+   * computed independently: their signs, order and (for multiple eigenvalues) bases are unrelated,
+   * so U S V^T reproduced A only for symmetric positive semidefinite A. */
+  SVDlapack(m, U, S, VT);
 }
 
 /* DGESDD prototype */
